@@ -9,6 +9,7 @@ import (
 	"sort"
 	"strings"
 	"time"
+	"unicode/utf8"
 
 	"github.com/la5nta/wl2k-go/fbb"
 )
@@ -190,7 +191,7 @@ func (s *segReader) Read(p []byte) (int, error) {
 
 func runC09(ctx *Ctx) error {
 	r, res := ctx.Rng, ctx.Res
-	res.Rule = "cases: (a) messages built through the public API (0..4 To/Cc in callsign / @winlink.org / SMTP forms and mixed case, ASCII and Latin-1 subjects and attachment names (also ASCII names containing a control character or DEL), any minute, text bodies incl. empty lines, 0..4 attachments with CRLF/NUL/empty/binary content, extra X- headers): Bytes() vs model message_write; ReadFrom through whole / 1-byte / random-chunk readers vs model read_from; oracle: parse(serialise m) = m, serialise(parse(serialise m)) = serialise m, accessors return what was set. (b) address strings vs model. (c) mutated serialisations (sizes, truncation, line edits): ReadFrom status vs model (skipped when the Date is outside the modelled layouts). Non-trivial: message with an attachment or a non-ASCII subject; distinct by serialised bytes."
+	res.Rule = "cases: (a) messages built through the public API (0..4 To/Cc in callsign / @winlink.org / SMTP forms and mixed case, ASCII and Latin-1 subjects and attachment names (also ASCII names and subjects containing a control character, a line break or DEL), any minute, text bodies incl. empty lines, 0..4 attachments with CRLF/NUL/empty/binary content, extra X- headers): Bytes() vs model message_write; ReadFrom through whole / 1-byte / random-chunk readers vs model read_from; oracle: parse(serialise m) = m, serialise(parse(serialise m)) = serialise m, accessors return what was set. (b) address strings vs model. (c) mutated serialisations (sizes, truncation, line edits): ReadFrom status vs model (skipped when the Date is outside the modelled layouts). Non-trivial: message with an attachment or a non-ASCII subject; distinct by serialised bytes."
 	var lines, impl []string
 	var cases []interface{}
 	push := func(line, obs string, cs interface{}) {
@@ -220,6 +221,15 @@ func runC09(ctx *Ctx) error {
 			s.Subject = "//WL2K " + string("ZOPR"[r.Intn(4)]) + "/ " + s.Subject
 		}
 		s.Subject = strings.TrimSpace(s.Subject)
+		if r.Intn(10) == 0 && len(s.Subject) >= 2 {
+			// a control character inside the subject (a line break, BEL, ESC, DEL), also when the rest
+			// is plain ASCII: the header stays one line and the subject comes back as it was set
+			p := 1 + r.Intn(len(s.Subject)-1)
+			for p < len(s.Subject) && !utf8.RuneStart(s.Subject[p]) {
+				p++
+			}
+			s.Subject = strings.TrimSpace(s.Subject[:p]) + []string{"\n", "\r\n", "\a", "\x1b", "\x7f", "\r\nBody: 0"}[r.Intn(6)] + strings.TrimSpace(s.Subject[p:]) + "."
+		}
 		if i == 3 || r.Intn(25) == 0 {
 			s.Subject = " " + s.Subject + "x "
 			s.HasOuter = true
